@@ -389,12 +389,20 @@ fn guarded(case: &TableCase, c13: bool, c14: bool) -> Result<TStats, String> {
 
 /// C14(a): policy level. Returns Err(description) on a false negative.
 pub fn policy_case(keys: &[Vec<u8>], bits: usize) -> Result<(), String> {
-    let p = BloomFilterPolicy::new(bits);
-    let f = p.create_filter(keys);
+    policy_case_rw(keys, bits, bits)
+}
+
+/// The filter is created by a policy with `bits` and queried by one with `reader_bits`: filters are
+/// stored in table files under a name that does not depend on bits_per_key (and record their own
+/// probe count), so a table written under one setting must stay readable under another.
+pub fn policy_case_rw(keys: &[Vec<u8>], bits: usize, reader_bits: usize) -> Result<(), String> {
+    let w = BloomFilterPolicy::new(bits);
+    let p = BloomFilterPolicy::new(reader_bits);
+    let f = w.create_filter(keys);
     for k in keys {
         match p.key_may_match(k, &f) {
             Ok(true) => {}
-            Ok(false) => return Err(format!("filter built from {} keys with bits_per_key={bits} answers 'no match' for member {}", keys.len(), hex(k))),
+            Ok(false) => return Err(format!("filter built from {} keys with bits_per_key={bits} (queried by a policy with bits_per_key={reader_bits}) answers 'no match' for member {}", keys.len(), hex(k))),
             Err(e) => return Err(format!("filter built from {} keys with bits_per_key={bits} cannot be queried for member {}: {e}", keys.len(), hex(k))),
         }
     }
@@ -405,6 +413,8 @@ pub fn policy_case(keys: &[Vec<u8>], bits: usize) -> Result<(), String> {
 pub struct PolicyCase {
     pub keys: Vec<crate::checks::corrupt::HexBytes>,
     pub bits: usize,
+    #[serde(default)]
+    pub reader_bits: Option<usize>,
 }
 
 pub fn replay_body(id: &str, case: &TableCase, msg: &str) -> Value {
@@ -432,7 +442,7 @@ pub fn worker(ctx: &WorkerCtx) -> WorkerResult {
                 fam += 1;
                 r0.evaluations += 1;
                 if let Err(e) = policy_case(&keys, bits) {
-                    let pc = PolicyCase { keys: keys.into_iter().map(crate::checks::corrupt::HexBytes).collect(), bits };
+                    let pc = PolicyCase { keys: keys.into_iter().map(crate::checks::corrupt::HexBytes).collect(), bits, reader_bits: None };
                     let body = json!({"property": "C14", "engine": "filterpolicy", "case": pc, "message": e});
                     let path = write_replay("C14", ctx.seed, ctx.worker, 1, &body);
                     r0.violations.push(ViolationRec { replay: path, message: e });
@@ -463,8 +473,9 @@ pub fn worker(ctx: &WorkerCtx) -> WorkerResult {
             ],
             1usize..=64,
             any::<bool>(),
+            prop::option::weighted(0.3, 1usize..=64),
         );
-        let out = runner.run(&strat, |(mut keys, bits, dup)| {
+        let out = runner.run(&strat, |(mut keys, bits, dup, reader)| {
             if dup && !keys.is_empty() {
                 let k = keys[0].clone();
                 keys.push(k);
@@ -474,8 +485,11 @@ pub fn worker(ctx: &WorkerCtx) -> WorkerResult {
             if counting {
                 r.evaluations += 1;
             }
-            match policy_case(&keys, bits) {
+            match policy_case_rw(&keys, bits, reader.unwrap_or(bits)) {
                 Ok(()) => {
+                    if counting && reader.is_some() {
+                        r.bump("policy_filter_queried_with_another_bits_per_key");
+                    }
                     if counting && !keys.is_empty() {
                         r.nontrivial_hashes.push(hash_json(&(&keys, bits)));
                         r.bump("policy_generated_key_sets");
@@ -492,9 +506,9 @@ pub fn worker(ctx: &WorkerCtx) -> WorkerResult {
             }
         });
         r0 = res.into_inner();
-        if let Err(TestError::Fail(reason, (keys, bits, _))) = out {
+        if let Err(TestError::Fail(reason, (keys, bits, _, reader))) = out {
             let msg = reason.message().to_string();
-            let pc = PolicyCase { keys: keys.into_iter().map(crate::checks::corrupt::HexBytes).collect(), bits };
+            let pc = PolicyCase { keys: keys.into_iter().map(crate::checks::corrupt::HexBytes).collect(), bits, reader_bits: reader };
             let body = json!({"property": "C14", "engine": "filterpolicy", "case": pc, "message": msg});
             let path = write_replay("C14", ctx.seed, ctx.worker, 2, &body);
             r0.violations.push(ViolationRec { replay: path, message: msg });
@@ -562,7 +576,7 @@ pub fn replay(v: &Value) -> Result<(), String> {
     if v["engine"] == "filterpolicy" {
         let pc: PolicyCase = serde_json::from_value(v["case"].clone()).map_err(|e| e.to_string())?;
         let keys: Vec<Vec<u8>> = pc.keys.into_iter().map(|k| k.0).collect();
-        return policy_case(&keys, pc.bits);
+        return policy_case_rw(&keys, pc.bits, pc.reader_bits.unwrap_or(pc.bits));
     }
     let case: TableCase = serde_json::from_value(v["case"].clone()).map_err(|e| e.to_string())?;
     guarded(&case, id == "C13", id == "C14").map(|_| ())
